@@ -2,16 +2,16 @@ SPECIFICATION Spec
 CONSTANTS
   Fact = {"A", "B"}
   Signer = {1, 2}
-  MaxAdd = 2
+  MaxAdd = 4
   MaxReSet = 0
-  MaxCalls = 3
-  Limits = {5}
+  MaxCalls = 4
+  Limits = {1, 2, 5}
   MaxRej = 2
   Impl = "fixed"
   Sym = TRUE
-  NCallers = 2
-  Removal = "abort"
-  Emit = "all"
-INVARIANTS R6ok
+  NCallers = 3
+  Removal = "skip"
+  Emit = "none"
 VIEW View
+INVARIANTS TypeOK Gone R0ok R1ok R2ok R3ok R4ok R6ok
 CHECK_DEADLOCK FALSE
